@@ -138,7 +138,8 @@ def body(f, ns, cls, sig, cname, **kw):
 
 
 def expr(f, ns, cls, sig):
-    return dict(file=f, kind='expr', sig=sig, within=[ns, cls])
+    # an expression is spliced into a #define: one line
+    return dict(file=f, kind='expr', sig=sig, within=[ns, cls], ctx=dict(post=[(r'\s+', ' ')]))
 
 
 SPEC = dict(
@@ -154,8 +155,6 @@ SPEC = dict(
         'mat_se_noexcept': expr(HM, M_NS, M_RCV, r'void set_error\(Error&& \w+\) &&' + NOEXCEPT_SPEC),
         'mat_sd': body(HM, M_NS, M_RCV, r'void set_done\(\) &&', 'mat_rcv'),
         'mat_sd_noexcept': expr(HM, M_NS, M_RCV, r'void set_done\(\) &&' + NOEXCEPT_SPEC),
-        # the one type-level statement of the channel mapping that is a plain constant: materialize never completes with done
-        'mat_sends_done': expr(HM, M_NS, M_SND, r'static constexpr bool sends_done\s*=\s*([^;]*);'),
         # ---- dematerialize: _demat::_receiver<Receiver>::type ----
         'dm_sv': body(HD, D_NS, D_RCV, r'void set_value\(CPO \w+, Values&&\.\.\. \w+\) &&', 'demat_rcv'),
         'dm_sv_cpo_param': expr(HD, D_NS, D_RCV, r'void set_value\(CPO (\w+), Values&&\.\.\. \w+\) &&'),
@@ -199,7 +198,7 @@ SPEC = dict(
         'payload identity only: values / errors are opaque tokens (a parameter pack is one token); "arriving unmodified" means the token delivered is the token received',
         'sequential code: no atomics, vf_interfere is empty',
         'NOT reached: the type-level halves of the mapping (materialize value_types / error_variant, dematerialize tuple<CPO, Tuple>::apply_impl, variant<>, append_error_types, '
-        'sends_done of dematerialize) -- overload resolution / template metaprogramming with no function body; only materialize\'s `sends_done` constant is read',
+        'sends_done) -- overload resolution / template metaprogramming with no function body',
         'NOT reached: the senders\' connect (tag_invoke(connect)) wraps the receiver and connects the source: a single return statement constructing C++ objects; the CPOs _mat_cpo::_fn / _demat_cpo::_fn',
     ],
     drops=['template genericity (Values..., Error, CPO: one symbolic instantiation, the tag / channel a run-time token)',
